@@ -1,4 +1,5 @@
 import MpVerif.C02.ModelEv
+import MpVerif.C02.ModelSites
 import MpVerif.Gen.Opcodes
 /-!
 # C02 model: `ReadNLString` — `TextReader::ReadHeader`, `NLReader<Reader, Handler>::Read`
@@ -147,7 +148,7 @@ def readNumArgs (minArgs : Nat) : P Nat := do
 
 /-- `NLReader::DoReadReference` -/
 def doReadReference : P Unit := do
-  let index ← readUIntUB cx cx.h.num_vars_and_exprs
+  let index ← readUIntUB cx (Site.ubRef cx.h)
   eol cx
   if index < cx.h.num_vars then emit (.varRef index) else emit (.commonRef (index - cx.h.num_vars))
 
@@ -236,7 +237,7 @@ def readNumericOp (rec : Mode → P Unit) (opcode : Nat) : P Unit := do
 /-- `NLReader::ReadNumericExpr(char code, bool ignore_zero)` -/
 def readNumericC (rec : Mode → P Unit) (code : UInt8) (ignoreZero : Bool) : P Unit := do
   if code == 102 then do            -- 'f'
-    let f ← readUIntUB cx cx.h.num_funcs
+    let f ← readUIntUB cx (Site.ubCall cx.h)
     let n ← rdUInt cx
     eol cx
     emit (.beginCall f n)
@@ -318,7 +319,7 @@ def exprFuel : Nat := cx.inp.len + 2
 /-- `NLReader::ReadLinearExpr(int num_terms, LinearHandler)`; `silent`: `NullLinearExprHandler` -/
 def readLinearTerms (n : Nat) (silent : Bool) : P Unit :=
   forN n 0 fun _ => do
-    let v ← readUIntUB cx cx.h.num_vars
+    let v ← readUIntUB cx (Site.ubTermVar cx.h)
     let coef ← rdDouble cx
     eol cx
     if silent then pure () else emit (.addTerm v coef)
@@ -326,7 +327,7 @@ def readLinearTerms (n : Nat) (silent : Bool) : P Unit :=
 /-- `NLReader::ReadLinearExpr<LinearHandler>()` (`isObj`: `ObjHandler`, else `AlgebraicConHandler`) -/
 def readLinearExpr (isObj : Bool) : P Unit := do
   let index ← readUIntUB cx (if isObj then cx.h.num_objs else cx.h.num_algebraic_cons)
-  let n ← readUIntLU cx 1 (cx.h.num_vars + 1)
+  let n ← readUIntLU cx Site.lbTerms (Site.ubTerms cx.h)
   eol cx
   if isObj && !cx.needObj index then readLinearTerms cx n true
   else do
@@ -418,23 +419,23 @@ def readSuffix : P Unit := do
 /-- one segment other than `b` and end of input -/
 def readSegment (c : UInt8) : P Unit := do
   if c == 67 then do          -- 'C'
-    let index ← readUIntUB cx cx.h.num_algebraic_cons
+    let index ← readUIntUB cx (Site.ubC cx.h)
     eol cx
     readExpr cx (exprFuel cx) (.num true)
     emit (.algCon index)
   else if c == 76 then do     -- 'L'
-    let index ← readUIntUB cx cx.h.num_logical_cons
+    let index ← readUIntUB cx (Site.ubL cx.h)
     eol cx
     readExpr cx (exprFuel cx) .log
     emit (.logCon index)
   else if c == 79 then do     -- 'O'
-    let index ← readUIntUB cx cx.h.num_objs
+    let index ← readUIntUB cx (Site.ubO cx.h)
     let objType ← rdUInt cx
     eol cx
     readExpr cx (exprFuel cx) (.num true)
     if cx.needObj index then emit (.obj (cx.resObj index) (objType != 0)) else pure ()
   else if c == 86 then do     -- 'V'
-    let idx ← readUIntLU cx cx.h.num_vars cx.h.num_vars_and_exprs
+    let idx ← readUIntLU cx (Site.lbV cx.h) (Site.ubV cx.h)
     let idx := idx - cx.h.num_vars
     let nlt ← rdUInt cx
     let position ← rdUInt cx
@@ -444,7 +445,7 @@ def readSegment (c : UInt8) : P Unit := do
     readExpr cx (exprFuel cx) (.num false)
     emit (.endCommonExpr idx position)
   else if c == 70 then do     -- 'F'
-    let index ← readUIntUB cx cx.h.num_funcs
+    let index ← readUIntUB cx (Site.ubF cx.h)
     let type ← rdUInt cx
     if G.badFuncType type then fail cx .functype else do
     let nargs ← rdInt cx 32
